@@ -10,6 +10,7 @@ import Driver.C08
 import Driver.C09
 import Driver.C20
 import Driver.C16
+import Driver.C12
 /-! Line-protocol driver. Usage: `drv <property>`; stdin: `op args… | impl-output`;
     stdout: one `MISMATCH`/`MONITOR` line per problem and a final `DONE` summary with coverage tags. -/
 open Drv
@@ -96,6 +97,8 @@ def main (args : List String) : IO UInt32 := do
   | ["C09", "quirk"] => finish (← loopStateless (Drv.C09.step true) h {})
   | ["C20"] => finish (← loopStateful Drv.C20.step h {} {})
   | ["C16"] => finish (← loopStateless Drv.C16.step h {})
+  | ["C12"] => finish (← loopStateful (Drv.C12.step true) h {} {})
+  | ["C12", "ideal"] => finish (← loopStateful (Drv.C12.step false) h {} {})
   | ["inrange"] => finish (← loopStateless Drv.Store.inRangeStep h {})
   | ["store", prop] => finish (← loopStateful (Drv.Store.step prop) h {} {})
   | _ => IO.eprintln "usage: drv <property>"; return 2
